@@ -34,6 +34,39 @@ func (m *RWMutex) Lock() {
 	s.acquire(m.rvc)
 }
 
+// TryLock never blocks: a scheduling point, then the attempt.
+func (m *RWMutex) TryLock() bool {
+	s := active.Load()
+	if s == nil || s.running == nil {
+		return m.real.TryLock()
+	}
+	s.muID(m)
+	s.point(&pendingOp{kind: opPoint, label: "TryLock", mu: m})
+	if m.w || m.r > 0 {
+		return false
+	}
+	m.w, m.owner = true, s.running.id
+	s.acquire(m.vc)
+	s.acquire(m.rvc)
+	return true
+}
+
+// TryRLock never blocks.
+func (m *RWMutex) TryRLock() bool {
+	s := active.Load()
+	if s == nil || s.running == nil {
+		return m.real.TryRLock()
+	}
+	s.muID(m)
+	s.point(&pendingOp{kind: opPoint, label: "TryRLock", mu: m})
+	if m.w {
+		return false
+	}
+	m.r++
+	s.acquire(m.vc)
+	return true
+}
+
 func (m *RWMutex) Unlock() {
 	if !m.w { // locked in pass-through mode
 		m.real.Unlock()
